@@ -207,6 +207,22 @@ def run_case(case, acc):
             if err is not None or len(got) != 2 or got[0][0] is not x:
                 report('bool-differs', {'written': x, 'loaded': got, 'error': repr(err)})
         return out
+    if fam == 'mixed':
+        sep = case['sep']
+        # strings that look like the printed form of other column values; a field with thousands of separators
+        for srow in ((12, '12', 0.5, True), (1, 'True', 12.0, False), (0, '0.5', 0.5, True), (5, '5', 5.0, True), (7, 'False', 1.5, False)):
+            rows = [srow, (12, 'x', 0.5, True), srow]
+            got, err, comp = roundtrip(rows, [int, str, float, bool], sep)
+            acc.evals += 1
+            if err is not None or comp != 1 or compare(rows, got)[0]:
+                report('number-like-string-differs', {'separator': sep, 'row': srow, 'loaded': got, 'error': repr(err)})
+        big = sep.join(['v'] * 5000)
+        for rows in ([(1, big, 2.5, True), (2, 'y', 1.0, False)], [(big, 1)], [(1, big)]):
+            types = [int, str, float, bool] if len(rows[0]) == 4 else [type(v) for v in rows[0]]
+            got, err, comp = roundtrip(rows, types, sep)
+            acc.evals += 1
+            if err is not None or comp != 1 or compare(rows, got)[0]:
+                report('field-with-thousands-of-separators-differs', {'separator': sep, 'columns': len(rows[0]), 'error': repr(err)})
     if fam == 'mixed' and case['sep'] == ',':
         # several hundred rows in one stream, long strings with specials
         rows = [(i - 150, ('s,"\\' * (i % 5)) + 'x' * (i % 300), (i - 150) / 8, i % 2 == 0) for i in range(400)]
@@ -286,6 +302,8 @@ def run_file(case, acc, report, out):
         first_len = 64 * 1024 - len(head) + off
         pad = Row3(0, 'p' * (first_len - len('0,"",1.0\n')), 1.0)      # the 64 KiB boundary falls -off bytes into the second row
         rows = [pad, special, Row3(6, 'z', 3.0)]
+        if off == 0:
+            rows.append(Row3(7, 'w' * 140000, 4.0))       # one row covering more than two whole read chunks
         s = RawSink()
         s.subscribe_to(rx.from_(rows).pipe(rscsv.dump_to_file(path, encoding='utf-8')))
         if s.error is not None:
